@@ -11,6 +11,7 @@ CONSTANTS
   UnitAt = "loop"
   ULoop = 2
   EvalEffect = "readonly"
+  ShareEffect = "readonly"
   RADS = {8}
   GMS = {64,128}
   Slicing = "layer"
